@@ -511,6 +511,10 @@ func (ctx *Ctx) rloop(path []byte, node *node, tpl *Tpl, w io.Writer) {
 			rl.stat = rlInuse
 			rl.err = nil
 			ctx.Err = v.ins.Loop(v.val, rl, &ctx.buf, ctx.bufS[1:]...)
+			// This loop is one of the loops a pending break/lazybreak N has to end.
+			if ctx.brkD > 0 {
+				ctx.brkD--
+			}
 			if ctx.Err == nil && rl.err != nil {
 				ctx.Err = rl.err
 				rl.stat = rlFree
